@@ -2,7 +2,9 @@ package props
 
 import (
 	"fmt"
+	"runtime/debug"
 	"sort"
+	"strings"
 
 	"github.com/relab/hotstuff"
 	"github.com/relab/hotstuff/security/crypto"
@@ -16,6 +18,39 @@ func safely(f func()) (p any) {
 	defer func() { p = recover() }()
 	f()
 	return nil
+}
+
+// safelySite is safely plus the innermost repository frame of the panic ("file.go:func").
+func safelySite(f func()) (p any, site string) {
+	defer func() {
+		if p = recover(); p != nil {
+			site = repoFrame(string(debug.Stack()))
+		}
+	}()
+	f()
+	return nil, ""
+}
+
+func repoFrame(stack string) string {
+	lines := strings.Split(stack, "\n")
+	for i := 0; i+1 < len(lines); i++ {
+		fn := lines[i]
+		loc := strings.TrimSpace(lines[i+1])
+		if !strings.HasPrefix(fn, "github.com/relab/hotstuff") || strings.Contains(fn, "/zverif/") {
+			continue
+		}
+		if !strings.HasPrefix(loc, "/repo/") || strings.Contains(loc, "/zverif/") || strings.Contains(loc, "zz_verif") {
+			continue
+		}
+		// keep the function name without the argument list and without the module path
+		if j := strings.LastIndex(fn, "("); j > 0 {
+			fn = fn[:j]
+		}
+		fn = strings.TrimPrefix(fn, "github.com/relab/hotstuff/")
+		fn = strings.TrimPrefix(fn, "github.com/relab/hotstuff.")
+		return fn
+	}
+	return "unknown-site"
 }
 
 // checkSet compares an IDSet with the reference set.
